@@ -161,9 +161,29 @@ def build(extra_rewrites=None, lock_overlay=False, buffer_min=None, quiet=True):
         n_resize = len(re.findall(r"self\.data\.resize\(([a-z_]+), 0\);", text))
         if n_resize != 2:
             raise Inconclusive("stream_buffer.rs: expected 2 self.data.resize(.., 0) sites, found %d" % n_resize)
-        text = re.sub(r"self\.data\.resize\(([a-z_]+), 0\);", r"crate::internal::verif::env::vec_resize(&mut self.data, \1, 0);", text)
+        text = re.sub(r"self\.data\.resize\(([a-z_]+), 0\);", r"crate::internal::verif::h_cache::vec_resize(&mut self.data, \1, 0);", text)
         info["rewrites"]["stream_buffer.rs Vec::resize -> bounded helper (same result)"] = n_resize
         open(p, "w").write(text)
+    # 4b. cache variant: the three storage functions of stream.rs get a cfg(kani) prologue that
+    # diverts to the flat byte-array model while the harness has switched it on (active under
+    # Kani AND in native playback, so a replayed counterexample runs exactly what was checked)
+    if buffer_min is not None:
+        p = os.path.join(src, "internal", "stream.rs")
+        text = open(p).read()
+        n = 0
+        for fn, ret, call in [
+            ("read_data_from_stream", "io::Result<usize>", "model_read(minialloc, stream_id, buf_offset_from_start, buf)"),
+            ("write_data_to_stream", "io::Result<()>", "model_write(minialloc, stream_id, buf_offset_from_start, buf)"),
+            ("resize_stream", "io::Result<()>", "model_resize(minialloc, stream_id, new_stream_len)"),
+        ]:
+            m = re.search(r"\nfn %s<[^{]*?\) -> %s \{\n" % (fn, re.escape(ret)), text, re.S)
+            if not m:
+                raise Inconclusive("stream.rs: signature of %s not found for the model prologue" % fn)
+            pro = "    #[cfg(kani)]\n    if crate::internal::verif::h_cache::model_on() {\n        return crate::internal::verif::h_cache::%s;\n    }\n" % call
+            text = text[:m.end()] + pro + text[m.end():]
+            n += 1
+        open(p, "w").write(text)
+        info["rewrites"]["stream.rs storage functions: cfg(kani) prologue diverting to the storage model when switched on"] = n
     # 5. optional: instrumented lock (C14)
     if lock_overlay:
         n = 0
